@@ -10,6 +10,8 @@ import (
 	"verif/engine/sym"
 )
 
+var solverDescription = "z3 4.8.12 (z3 -in, incremental; one bit-vector and one integer-mode process per worker)"
+
 type Coverage struct {
 	States           int                      `json:"states"`
 	Transitions      int                      `json:"transitions"`
@@ -66,7 +68,7 @@ func newEvidence(id, tier string, seed int, spec *PropSpec) *Evidence {
 	ev.Coverage.OutsideBounds = spec.Outside
 	ev.Coverage.Rule = "states = completed symbolic paths (each covers every value of the symbolic inputs that drives execution down it); transitions = solver-decided obligations (branch feasibility, panic obligations, assertions); samples = solver witnesses of completed paths"
 	ev.Coverage.Explanation = spec.Explanation
-	ev.Coverage.Solver = "z3 4.8.12 (z3 -in, incremental, one process per worker)"
+	ev.Coverage.Solver = solverDescription
 	ev.Assumptions = append([]string{}, spec.Assumptions...)
 	ev.KnownSeen = []string{}
 	return ev
